@@ -100,10 +100,13 @@ fn glyph_class_list_member(parser: &mut Parser, recovery: TokenSet) -> bool {
     let looks_like_range = parser.matches(1, Kind::Hyphen)
         || (parser.matches(0, Kind::Backslash) && parser.matches(2, Kind::Hyphen));
     if looks_like_range {
+        let start = parser.nth_range(0).start;
         parser.in_node(AstKind::GlyphRange, |parser| {
             glyph_range(parser, recovery.add(Kind::RSquare));
         });
-        true
+        // if error recovery consumed nothing (e.g. `[]-`) this was not a class member;
+        // reporting one anyway makes the caller retry at the same token forever.
+        parser.nth_range(0).start != start
     } else {
         eat_glyph_name_like(parser)
     }
